@@ -229,6 +229,11 @@ exec_surveyor(const vcase *vc)
 					continue;
 				id = 0x80000000u | (((C.id ? C.id : W.maxid) + (uint32_t) (W.rseq % 5) - 2) & 0x7fffffffu);
 				break;
+			case 7: // a flood of responses to the current survey: the surveyor's queue (128) fills up exactly, or overflows
+				id  = C.id;
+				dup = 127 + (int) (W.rseq % 4);
+				vr_tag("response_flood");
+				break;
 			default: continue;
 			}
 			if (!shrt && id == 0)
@@ -266,7 +271,11 @@ exec_surveyor(const vcase *vc)
 					SCtx &T = W.c[target];
 					int   a0 = alive(T, t_before), a1x = alive(T, t_after);
 					if (a0 == 1 && a1x == 1) {
-						T.q.push_back(rtag);
+						// (the surveyor buffers at most 128 unread responses per context; more are dropped whole)
+						if (T.q.size() < 128 || T.rcv_pending)
+							T.q.push_back(rtag);
+						else
+							vr_tag("response_queue_full");
 						vr_tag("response_in_time");
 					} else if (a0 == 0) {
 						// arrived after the deadline: may be queued internally but can never be received
@@ -543,8 +552,11 @@ genSurvOp()
 	return gen::exec([]() {
 		std::ostringstream o;
 		int k = *gen::weightedElement<int>({{4, 0}, {3, 1}, {2, 2}});
-		int t = *gen::weightedElement<int>({{8, 0}, {12, 1}, {8, 2}, {7, 3}, {2, 4}, {6, 5}, {2, 6}, {1, 7}, {2, 8}, {4, 9}});
+		int t = *gen::weightedElement<int>({{8, 0}, {12, 1}, {8, 2}, {7, 3}, {2, 4}, {6, 5}, {2, 6}, {1, 7}, {2, 8}, {4, 9}, {1, 10}});
 		switch (t) {
+		case 10: // the queue of unread responses fills up (exactly, or beyond), then a new survey: only its own response may come out
+			o << "stime " << k << " 500\nsurvey " << k << "\nresp " << *pbt::range<int>(0, 1) << " 7 " << k << "\nsurvey " << k << "\nresp " << *pbt::range<int>(0, 1) << " 0 " << k << "\nrecv " << k << "\nrecv " << k;
+			break;
 		case 0: o << "survey " << k; break;
 		case 1: o << "resp " << *pbt::range<int>(0, 1) << " " << *gen::weightedElement<int>({{10, 0}, {4, 1}, {2, 2}, {2, 3}, {1, 4}, {3, 5}, {4, 6}}) << " " << k; break;
 		case 2: o << "recv " << k; break;
